@@ -432,6 +432,7 @@ class Gen:
     def generate(self, seed):
         rng = self.rng
         p = self.p
+        self.seed = seed
         if rng.random() < p['p_resources']:
             for k in range(rng.randint(*p['n_resources'])):
                 self.resources[f'r{k}'] = rng.randint(*p['res_cap'])
@@ -728,6 +729,16 @@ class Gen:
             if e['op'] == 'block' and rng.random() < 0.85:
                 ops.append({'t': min(horizon, e['t'] + rng.choice([0, 0.5, 1, 3, 6])), 'prio': rng.choice(PRIOS),
                             'op': 'unblock', 'target': e['target']})
+        # the pending transition of an operating schedule frozen for a while (Environment.pause_matching_events on the
+        # scheduler's id) and released later: the state change happens - and is recorded - when it actually happens
+        # (own generator, so that the models drawn from the main stream stay what they were)
+        r2 = random.Random(f'{getattr(self, "seed", 0)}/sched_pause')
+        for it in self.items:
+            if it['kind'] == 'scheduler' and r2.random() < p.get('p_sched_pause', 0.3):
+                t1 = grid_time(r2, horizon * 0.8)
+                ops.append({'t': t1, 'prio': r2.choice(PRIOS), 'op': 'sched_pause', 'sched': it['id']})
+                ops.append({'t': min(horizon, t1 + r2.choice([0.25, 0.75, 1.5, 3, 0])), 'prio': r2.choice(PRIOS),
+                            'op': 'sched_resume', 'sched': it['id']})
         ops.sort(key=lambda e: e['t'])
         return ops
 
